@@ -212,11 +212,15 @@ func genW2(r *simrt.Rng, tier string) *w2Ops {
 	if r.Chance(0.3) {
 		// churn: several consumers attaching and detaching in quick succession while traffic flows
 		o.Profile = "churn"
+		for len(o.Consumers) < 3 || (len(o.Consumers) < 6 && r.Chance(0.4)) {
+			// a removal and an attachment have to meet within a few instructions: several devices doing it at once
+			o.Consumers = append(o.Consumers, w2Consumer{Mode: "fast", DetachMs: -1})
+		}
 		for i := range o.Consumers {
 			c := &o.Consumers[i]
-			c.Churn = r.Range(2, 7)
-			c.HoldUs = []int{0, 50, 300, 2000}[r.Intn(4)]
-			c.GapUs = []int{0, 0, 30, 500}[r.Intn(4)]
+			c.Churn = r.Range(2, 9)
+			c.HoldUs = []int{0, 0, 50, 300, 2000}[r.Intn(5)]
+			c.GapUs = []int{0, 0, 0, 30, 500}[r.Intn(5)]
 			c.StartMs = r.Intn(5)
 		}
 		o.InDelays = []int{0, 0, 50, 200}
